@@ -181,16 +181,56 @@ ps_medium_consistent(int ck, size_t datasize)
     return ps_ref(ck, ps_medium + ps_cksize(ck), datasize) == ps_stored_sum(ck);
 }
 
+/* the library's default algorithm, for histories that switch back to it */
+static uint16_t
+ps_triv16(const unsigned char *d, size_t n, uint16_t init)
+{
+    for (size_t i = 0; i < n; i++)
+        init = (uint16_t)(init + d[i]);
+    return init;
+}
+
+/* optional set-up history: steps executed on the instance after persistent_init and before the final
+ * configuration calls; the last placement and the last checksum selection are what counts */
+enum { PH_PLACE, PH_SUM, PH_BUFFER };
+static struct {
+    int op;
+    uint32_t arg;
+} ps_hist[12];
+static int ps_hist_n;
+static unsigned char ps_hist_buf[8];
+
+static void
+ps_select_sum(PersistentStorage *st, int ck, int explicit_default)
+{
+    if (ck == CK_CRC16)
+        persistent_sum16(st, ps_crc16, 0);
+    else if (ck == CK_SUM32)
+        persistent_sum32(st, ps_sum32, 0x12345678u);
+    else if (explicit_default)
+        persistent_sum16(st, ps_triv16, 0);
+}
+
 /* configure an instance over the current medium */
 static void
 ps_configure(PersistentStorage *st, size_t datasize, uint32_t place, int ck, unsigned char *aux, size_t auxsize,
              int with_aux)
 {
     persistent_init(st, datasize, ps_read, ps_write);
-    if (ck == CK_CRC16)
-        persistent_sum16(st, ps_crc16, 0);
-    else if (ck == CK_SUM32)
-        persistent_sum32(st, ps_sum32, 0x12345678u);
+    if (ps_hist_n > 0) {
+        /* the caller made the history end in this placement and this checksum, in either order */
+        for (int i = 0; i < ps_hist_n; i++) {
+            if (ps_hist[i].op == PH_PLACE)
+                persistent_place(st, ps_hist[i].arg);
+            else if (ps_hist[i].op == PH_SUM)
+                ps_select_sum(st, (int)ps_hist[i].arg, 1);
+            else
+                persistent_buffer(st, ps_hist_buf, ps_hist[i].arg);
+        }
+        persistent_buffer(st, with_aux ? aux : NULL, with_aux ? auxsize : 0);
+        return;
+    }
+    ps_select_sum(st, ck, 0);
     persistent_place(st, place);
     if (with_aux)
         persistent_buffer(st, aux, auxsize);
